@@ -1,12 +1,20 @@
 pub mod c01;
 pub mod c02;
 pub mod c03;
+pub mod c04;
+pub mod c05;
+pub mod c07;
+pub mod c08;
 
 pub fn run(prop: &str, tier: &str) -> i32 {
     match prop {
         "C01" => c01::run(tier),
         "C02" => c02::run(tier),
         "C03" => c03::run(tier),
+        "C04" => c04::run(tier),
+        "C05" => c05::run(tier),
+        "C07" => c07::run(tier),
+        "C08" => c08::run(tier),
         _ => {
             eprintln!("unknown property {}", prop);
             3
